@@ -43,6 +43,8 @@ def is_sum(t, c, x):
     """t is (x + c) in either operand order"""
     if c == 0:
         return t == x
+    if P.is_const(t) and P.is_const(x):
+        return t[1] == (x[1] + c) % (1 << 64)       # both already folded for this initial byte
     return isinstance(t, tuple) and t[0] == "op" and t[1] == "add" and {t[3], t[4]} == {("c", c), x} and t[3] != t[4]
 
 
@@ -234,7 +236,11 @@ def check_byte(prog, b, ref, o, enumv, loader_ext):
             if not okd:
                 res.append(("claim", False, "payload claim of %s is not the decoded length of head 0x%02X" % (_fmt_desc(d), b)))
                 return res
-            if bound + before <= SIZE_MAX and req in (("op", "add", "i64", ("c", before), amount), ("op", "add", "i64", amount, ("c", before))):
+            if P.is_const(amount) and P.is_const(req) and req[1] == before + amount[1] and before + amount[1] <= SIZE_MAX:
+                # both folded for this initial byte (an immediate length): the sum is the plain number
+                res.append(("nedata-wrap", True, "immediate length: claimed + length is a small constant"))
+                req = None
+            elif bound + before <= SIZE_MAX and req in (("op", "add", "i64", ("c", before), amount), ("op", "add", "i64", amount, ("c", before))):
                 res.append(("nedata-wrap", True, "length < 2^%d: claimed + length cannot wrap" % (8 * N if N else 5)))
                 req = None
             facts = o["path"].st.truth
@@ -263,7 +269,7 @@ def check_byte(prog, b, ref, o, enumv, loader_ext):
         prov = ("arg", o["size_i"])
         want = [("icmp", "ugt", fc["amount"], ("op", "sub", "i64", prov, ("c", before)) if before else prov)]
         facts = o["path"].st.truth
-        okc = o["path"].st.rel_gt(fc["amount"], want[0][3])
+        okc = o["path"].st.rel_gt(fc["amount"], want[0][3]) or o["path"].st.rel_gt(fc.get("amount_raw", fc["amount"]), want[0][3])
         if not okc and P.is_const(fc["amount"]):
             # constant amount: recorded as an interval on (provided - before)
             t = want[0][3]
@@ -332,6 +338,10 @@ def stateless(chk, rule, prog, eff):
     return len(callees)
 
 
+def _int_bits_of(ty):
+    return int(ty[1:]) if isinstance(ty, str) and ty.startswith("i") and ty[1:].isdigit() else None
+
+
 def claim_helper(prog):
     """name of the input-bookkeeping routine of the streaming decoder: the one library function that cbor_stream_decode
     hands its source_size to (wherever it is defined: the decoder's unit or, as `static inline`, a shared header)"""
@@ -395,8 +405,24 @@ def size_only_feeds_claims(chk, rule, prog):
     chain = c.users(Arg(c, pi))
     ok = len(chain) == 1 and chain[0].op == "sub"
     if ok:
+        # ... whose result only feeds comparisons, and their outcomes only decisions (a branch, or a truth value that is
+        # negated / widened / selected / returned): the buffer length never becomes data
         u2 = c.users(chain[0])
-        ok = len(u2) == 1 and u2[0].op == "icmp" and all(x.op == "br" for x in c.users(u2[0]))
+        ok = bool(u2) and all(x.op == "icmp" for x in u2)
+        seen_, work_ = set(), list(u2)
+        while ok and work_:
+            x = work_.pop()
+            if x.id in seen_:
+                continue
+            seen_.add(x.id)
+            for y in c.users(x):
+                if y.op in ("br", "ret"):
+                    continue
+                if y.op in ("xor", "zext", "trunc", "select", "phi", "and", "or", "icmp", "store", "load") and \
+                        (_int_bits_of(y.type) or 64) <= 8 or y.op in ("br", "select", "phi", "icmp"):
+                    work_.append(y)
+                    continue
+                ok = False
     chk.ob(rule, "claim_bytes uses 'provided' only in its comparison", ok, "%s:%d" % (c.file, c.line), fn=c.name, key="provided")
     return n
 
